@@ -37,8 +37,10 @@ structure Side where
   allTime : Nat
   /-- `ALL_TIME_BURNED_FEES` entry -/
   burned : Nat
-  /-- balance of the configured fee collector -/
+  /-- balance of the fee collector named at instantiation -/
   col : Nat
+  /-- balance of the alternative collector address `UpdateConfig{fee_collector_addr}` can switch to -/
+  colB : Nat
   /-- ghost: Σ protocol fees charged to traders -/
   chg : Nat
   /-- ghost: Σ amounts transferred to the fee collector -/
@@ -63,6 +65,8 @@ structure St where
   lpPair : Nat
   fees : Fees
   users : List User
+  /-- `Config.fee_collector_addr` is the alternative collector -/
+  useB : Bool
 deriving Repr, DecidableEq
 
 inductive Op where
@@ -76,6 +80,9 @@ inductive Op where
   | collect
   /-- `UpdateConfig { pool_fees }`; `owner = false` is any other sender -/
   | setFees (owner : Bool) (f : Fees)
+  /-- `UpdateConfig { fee_collector_addr }`: the collector named at instantiation (`false`) or the
+      alternative one (`true`) -/
+  | setCollector (owner : Bool) (b : Bool)
   /-- plain transfer to the pair: asset 0 / 1, or (`which = 2`) LP tokens -/
   | donate (u which amt : Nat)
   /-- `ExecuteMsg::Swap` naming `off` while attaching `sent` (native), or naming a cw20 asset -/
@@ -249,16 +256,21 @@ def withdraw (s : St) (u amt : Nat) : Res St := do
 /-! ### collect_protocol_fees / update_config / plain transfers -/
 
 /-- one ledger entry of `collect_protocol_fees`: sent and reset iff above the threshold -/
-def collectSide (x : Side) : Res Side :=
+def collectSide (useB : Bool) (x : Side) : Res Side :=
   if x.pend > Gen.PAIR_MINIMUM_COLLECTABLE_BALANCE then do
     let b ← csub x.bal x.pend
-    pure { x with bal := b, pend := 0, col := x.col + x.pend, sent := x.sent + x.pend }
+    if useB then pure { x with bal := b, pend := 0, colB := x.colB + x.pend, sent := x.sent + x.pend }
+    else pure { x with bal := b, pend := 0, col := x.col + x.pend, sent := x.sent + x.pend }
   else pure x
 
 def collect (s : St) : Res St := do
-  let x0 ← collectSide s.x0
-  let x1 ← collectSide s.x1
+  let x0 ← collectSide s.useB s.x0
+  let x1 ← collectSide s.useB s.x1
   pure { s with x0 := x0, x1 := x1 }
+
+def setCollector (s : St) (owner b : Bool) : Res St := do
+  guardErr owner
+  pure { s with useB := b }
 
 def setFees (s : St) (owner : Bool) (f : Fees) : Res St := do
   guardErr owner
@@ -287,6 +299,7 @@ def step (cv : Curve) (s : St) : Op → Res St
   | .withdraw u amt => withdraw s u amt
   | .collect => collect s
   | .setFees o f => setFees s o f
+  | .setCollector o b => setCollector s o b
   | .donate u w amt => donate s u w amt
   | .swapBad u dir off sent => swapBad cv s u dir off sent
   | .foreign _ _ _ => .err
@@ -306,12 +319,12 @@ def queryPool (s : St) : Res (Nat × Nat × Nat) := do
   pure (r0, r1, s.sup)
 
 def sideInit (native : Bool) (tot : Nat) : Side :=
-  { native := native, bal := 0, pend := 0, allTime := 0, burned := 0, col := 0, chg := 0, sent := 0,
+  { native := native, bal := 0, pend := 0, allTime := 0, burned := 0, col := 0, colB := 0, chg := 0, sent := 0,
     brn := 0, tot := tot }
 
 /-- a freshly instantiated pair and `n` users holding `a` / `b` each -/
 def init (n0 n1 : Bool) (f : Fees) (us : List User) : St :=
   { x0 := sideInit n0 ((us.map (·.a)).sum), x1 := sideInit n1 ((us.map (·.b)).sum), sup := 0, lpPair := 0,
-    fees := f, users := us }
+    fees := f, users := us, useB := false }
 
 end WW.Pair
